@@ -20,6 +20,24 @@ def md5_to_int(s: str) -> int:  # pragma: no cover; branched code
     return int(hashed.hexdigest(), 16)
 
 
+def _stringify(data: Any) -> np.ndarray:
+    """
+    The text of each element of `data`, which depends on that element only.
+    """
+    values = np.array(data)
+    dtype = getattr(data, "dtype", None)
+    if values.dtype.kind == "f" and (
+        getattr(dtype, "kind", None) in ("i", "u")
+        or (hasattr(dtype, "is_integer") and dtype.is_integer())
+    ):
+        # Nullable integer columns (pandas masked or Arrow-backed arrays, and
+        # narwhals series) are converted by numpy to float64 as soon as one of
+        # their elements is null, which would render `1` as "1.0" rather than
+        # "1" depending on the other rows; use the elements themselves instead.
+        values = np.array(data.to_list(), dtype=object)
+    return values.astype(np.str_)
+
+
 def hashed(
     data: Any,
     levels: int,
@@ -68,7 +86,7 @@ def hashed(
             _spec=model_spec,
         )
 
-    stringified_data = np.array(data).astype(np.str_)
+    stringified_data = _stringify(data)
 
     return FactorValues(
         (np.vectorize(md5_to_int, otypes=[object])(stringified_data) % levels).astype(
